@@ -1293,8 +1293,99 @@ fn run_bcfb(c: &Case) -> Obs {
     }
 }
 
+// ---------------------------------------------------------------------------------------------
+// kind `bcfk`: the indexing / filtering key read off a record's SITE BYTES
+// (NV.Index.BcfSiteKey.bcf_site_key)
+//
+//   bcfk  site        -- the site block (hex); the real side lays it out as a record without samples
+//                        (l_shared, l_indiv = 0, site), reads it with bcf::io::Reader::read_record over
+//                        the plain bytes and asks Record::reference_sequence_id, variant_start, end.
+//   expected          -- "Invalid" when read_record refuses the block (Fields::index), else
+//                        rid=<n|Err>;start=<n|-|Err>;end=<n|Err>
+pub fn generate_bcfk(rng: &mut Rng, tier: &str, w: &mut CaseWriter) {
+    let n = if tier == "thorough" { 3000 } else { 150 };
+    for _ in 0..n {
+        let word = |rng: &mut Rng| -> i32 {
+            match rng.below(8) {
+                0 => -1,
+                1 => 0,
+                2 => i32::MAX,
+                3 => i32::MIN,
+                4 => -(rng.range(2, 100000) as i32),
+                5 => rng.range(1, 10) as i32,
+                _ => rng.range(0, i32::MAX as u64) as i32,
+            }
+        };
+        let mut site: Vec<u8> = Vec::new();
+        site.extend(word(rng).to_le_bytes());
+        site.extend(word(rng).to_le_bytes());
+        site.extend(word(rng).to_le_bytes());
+        site.extend(0x7f80_0001u32.to_le_bytes());
+        site.extend(0u16.to_le_bytes());
+        let n_alt = rng.below(3) as u16;
+        let n_allele = if rng.chance(1, 12) { 0 } else { 1 + n_alt };
+        site.extend(n_allele.to_le_bytes());
+        site.extend([0u8, 0, 0, 0]);
+        // ID (empty or "r1"), REF, ALTs, FILTER (none)
+        if rng.chance(1, 2) { site.push(0x07) } else { site.extend([0x27, b'r', b'1']) }
+        site.extend([0x17, b'A']);
+        for _ in 0..n_alt {
+            site.extend([0x17, b'C']);
+        }
+        site.push(0x00);
+        if rng.chance(1, 8) {
+            let k = rng.below(site.len() as u64 + 1) as usize;
+            site.truncate(k);
+        }
+        if site.is_empty() {
+            site.push(0);
+        }
+        w.push("bcfk", vec![hex(&site)]);
+    }
+}
+
+fn run_bcfk(c: &Case) -> Obs {
+    let site = unhex(&c.args[0]);
+    let mut stream: Vec<u8> = Vec::new();
+    stream.extend((site.len() as u32).to_le_bytes());
+    stream.extend(0u32.to_le_bytes());
+    stream.extend(&site);
+    let out = guarded(AssertUnwindSafe(|| {
+        let mut reader = noodles_bcf::io::Reader::from(&stream[..]);
+        let mut record = noodles_bcf::Record::default();
+        match reader.read_record(&mut record) {
+            Err(_) => "Invalid".to_string(),
+            Ok(0) => "End".to_string(),
+            Ok(_) => {
+                let rid = match record.reference_sequence_id() {
+                    Ok(n) => n.to_string(),
+                    Err(_) => "Err".into(),
+                };
+                let start = match record.variant_start() {
+                    None => "-".to_string(),
+                    Some(Ok(p)) => usize::from(p).to_string(),
+                    Some(Err(_)) => "Err".into(),
+                };
+                let end = match record.end() {
+                    Ok(p) => usize::from(p).to_string(),
+                    Err(_) => "Err".into(),
+                };
+                format!("rid={rid};start={start};end={end}")
+            }
+        }
+    }));
+    match out {
+        Outcome::Done(s) => {
+            let nontrivial = s != "Invalid";
+            Obs::ok(s, nontrivial)
+        }
+        Outcome::Panicked(m) => Obs::fail("Panic", "bcfk-panic", m),
+    }
+}
+
 pub fn run(c: &Case) -> Option<Obs> {
     match c.kind.as_str() {
+        "bcfk" => Some(run_bcfk(c)),
         "bcfb" => Some(run_bcfb(c)),
         "bamb" => Some(run_bamb(c)),
         "bamx" => Some(run_bamx(c)),
